@@ -625,7 +625,7 @@ class KnownMultiplierStringType(Type):
                                                     self.maximum,
                                                     self.number_of_bits)
 
-            if self.maximum > 1 and len(data) > 0:
+            if self.maximum * self.bits_per_character >= 16 and len(data) > 0:
                 encoder.align()
         elif self.maximum * self.bits_per_character > 16:
             encoder.align()
@@ -662,7 +662,7 @@ class KnownMultiplierStringType(Type):
                                                                self.maximum,
                                                                self.number_of_bits)
 
-                if self.maximum > 1 and length > 0:
+                if self.maximum * self.bits_per_character >= 16 and length > 0:
                     decoder.align()
             elif self.maximum * self.bits_per_character > 16:
                 decoder.align()
